@@ -53,7 +53,12 @@ def h_v1(sx):
             g.append((prefix.startswith("-") or prefix.startswith("~"), name))
             parts.append(prefix + name + (":3" if lim else ""))
         groups.append(g)
-        texts.append(",".join(parts))
+        sep = ","
+        if sx.params.get("comma_padding") and form == "list" and len(parts) > 1:
+            # blanks next to the comma inside one argument (--tags="@a, -@b") do not change the meaning
+            sep = sx.choice("sep:%d" % gi, [",", ", ", " ,", " , "])
+            sep = sep if isinstance(sep, str) else sep.concretize()
+        texts.append(sep.join(parts))
     arg = texts if form == "list" else " ".join(texts)
     universe = KW_UNIVERSE if sx.params.get("kw_names") else UNIVERSE
     tags, member = tagset(sx, universe)
@@ -192,6 +197,11 @@ def jobs(tier, seed):
         js.append(Job("v1rep.2x2.%s.v1" % form, "props.c08:h_v1",
                       {"shape": [2, 2], "form": form, "protocol": "v1", "limits": True, "names": ["a", "b.c", "zzz", "a"], "prefixes": [0, 2]},
                       reach=["C08.v1-meaning(AND of OR, -/~ negate, @ optional)"], min_paths=10, cost=4 ** 4, validate=40, closure=False))
+    for sh in ([2], [2, 1]):
+        for proto in ("v1", "auto"):
+            js.append(Job("v1pad.%s.%s" % ("x".join(map(str, sh)), proto), "props.c08:h_v1",
+                          {"shape": sh, "form": "list", "protocol": proto, "limits": False, "comma_padding": True},
+                          reach=["C08.v1-meaning(AND of OR, -/~ negate, @ optional)"], min_paths=10, cost=4 * 6 ** sum(sh), validate=40, closure=False))
     # a later group whose tags all occur in an earlier group still narrows the selection
     for form in ("list", "string"):
         js.append(Job("v1rep.2x1.%s.v1" % form, "props.c08:h_v1",
